@@ -8,7 +8,7 @@
    is).  Node names, pod uids and pod namespace/name keys are Z ranks (0 = empty node name). *)
 From Coq Require Import List ZArith Bool.
 From Coq Require String.
-From Verif Require Import Gen.Gen_consts Gen.Gen_funcs Gen.Gen_loadaware Lib.SortX.
+From Verif Require Import Gen.Gen_consts Gen.Gen_funcs Gen.Gen_loadaware Gen.Gen_scores Lib.SortX.
 Import ListNotations.
 Open Scope Z_scope.
 
@@ -77,6 +77,12 @@ Definition om_vec (m : omap) : vec := map (fun o => match o with Some v => v | N
 
 Record aggargs := mkAgg { ag_thr : omap; ag_type : Z; ag_dur : Z }.           (* type 0 = "" *)
 
+(* what only Score reads: ResourceWeights, DominantResourceWeight, ScoreAccordingProdUsage,
+   Aggregated.ScoreAggregationType / ScoreAggregatedDuration (used when Aggregated is set) *)
+Record scorecfg := mkSC {
+  sc_weights : omap; sc_dom : Z; sc_prod : bool; sc_aggT : Z; sc_aggD : Z }.
+Definition no_score : scorecfg := mkSC [] 0 false 0 0.
+
 Record config := mkCfg {
   c_thr : omap;                       (* UsageThresholds *)
   c_prod_thr : omap;                  (* ProdUsageThresholds *)
@@ -88,22 +94,43 @@ Record config := mkCfg {
   c_allow_custom : bool;              (* AllowCustomizeEstimation *)
   c_sec_sched : option Z;             (* EstimatedSecondsAfterPodScheduled *)
   c_sec_init : option Z;              (* EstimatedSecondsAfterInitialized *)
-  c_factors : omap                    (* EstimatedScalingFactors *)
+  c_factors : omap;                   (* EstimatedScalingFactors *)
+  c_score : scorecfg
 }.
 
 (* ------------------------------------------------------------------ pods *)
+(* one container's declared requests / limits (cpu, memory) under the resource names of the
+   pod's family; absent = 0 (the code treats a zero quantity and a missing key alike) *)
+Record ctr := mkCtr { ct_req : vec; ct_lim : vec }.
+
 (* condition state: 0 absent, 1 present and not True, 2 True *)
 Record pod := mkPod {
-  p_uid : Z; p_key : Z; p_node : Z; p_prio : Z;
-  p_term : bool;                      (* phase Succeeded / Failed *)
+  p_uid : Z; p_key : Z; p_node : Z;
+  p_prio : option Z;                  (* spec.priority (None = nil) *)
+  p_label : Z;                        (* koordinator.sh/priority-class label: 0 absent, 1 koord-prod,
+                                         2 koord-mid, 3 koord-batch, 4 koord-free, other = unknown name *)
+  p_qos : Z;                          (* koordinator.sh/qosClass label: 0 absent, 1 LSE, 2 LSR, 3 LS,
+                                         4 BE, 5 SYSTEM, other = unknown name *)
+  p_kqos : Z;                         (* status.qosClass: 0 empty, 1 Guaranteed, 2 Burstable, 3 BestEffort *)
+  p_phase : Z;                        (* 0 Running, 1 Succeeded, 2 Failed, 3 Pending, 4 Unknown *)
   p_resv : bool;                      (* reservation's reserve pod *)
-  p_ds : bool;                        (* owned by a DaemonSet *)
-  p_req : vec; p_lim : vec;           (* requests / limits under the resource names of its class *)
+  p_owner : Z;                        (* owner references: 0 none, 1 [DaemonSet], 2 [ReplicaSet; DaemonSet],
+                                         3 [ReplicaSet], 4 [kind "daemonset"] *)
+  p_fam : Z;                          (* resource names its containers declare under: 1 cpu/memory,
+                                         2 mid-cpu/mid-memory, 3 batch-cpu/batch-memory *)
+  p_ctrs : list ctr;                  (* spec.containers *)
+  p_inits : list (bool * ctr);        (* spec.initContainers; true = restartPolicy Always (sidecar) *)
+  p_overhead : option vec;            (* spec.overhead (cpu, memory) *)
   p_cf : omap;                        (* custom scaling factors annotation *)
   p_cs_sched : Z; p_cs_init : Z;      (* custom seconds annotations, -1 = absent *)
   p_sch_s : Z; p_sch_t : Z;           (* PodScheduled condition *)
   p_ini_s : Z; p_ini_t : Z            (* Initialized condition *)
 }.
+
+(* util.IsPodTerminated *)
+Definition terminated (p : pod) : bool := (p_phase p =? 1) || (p_phase p =? 2).
+(* isDaemonSetPod (helper.go:137): some owner reference has Kind "DaemonSet" *)
+Definition daemonset (p : pod) : bool := (p_owner p =? 1) || (p_owner p =? 2).
 
 Inductive cls := CProd | CMid | CBatch | CFree | CNone.
 Definition cls_of_prio (p : Z) : cls :=
@@ -113,8 +140,73 @@ Definition cls_of_prio (p : Z) : cls :=
   else if String.eqb s PriorityBatch then CBatch
   else if String.eqb s PriorityFree then CFree
   else CNone.
+(* GetPodPriorityClassByName *)
+Definition cls_of_label (l : Z) : cls :=
+  if l =? 1 then CProd else if l =? 2 then CMid else if l =? 3 then CBatch
+  else if l =? 4 then CFree else CNone.
+(* GetPodPriorityClassRaw (apis/extension/priority.go:71): the label wins over spec.priority *)
+Definition raw_cls (p : pod) : cls :=
+  if negb (p_label p =? 0) then cls_of_label (p_label p)
+  else match p_prio p with Some v => cls_of_prio v | None => CNone end.
+
+(* ---- PodRequests / PodLimits of k8s.io/component-helpers/resource (the sidecar-KEP formula):
+   sum of the containers and restartable init containers, at least the peak of the init phase *)
+Definition vmax : vec -> vec -> vec := vzip Z.max.
+Definition sum_ctrs (sel : ctr -> vec) (l : list ctr) : vec :=
+  fold_left (fun a c => vadd a (sel c)) l vzero.
+Fixpoint init_walk (sel : ctr -> vec) (l : list (bool * ctr)) (total restartable imax : vec)
+  : vec * vec :=
+  match l with
+  | [] => (total, imax)
+  | (always, c) :: t =>
+    if always then
+      let r' := vadd restartable (sel c) in
+      init_walk sel t (vadd total (sel c)) r' (vmax imax r')
+    else init_walk sel t total restartable (vmax imax (vadd (vadd vzero (sel c)) restartable))
+  end.
+Definition aggregate (sel : ctr -> vec) (p : pod) : vec :=
+  let '(total, imax) := init_walk sel (p_inits p) (sum_ctrs sel (p_ctrs p)) vzero vzero in
+  vmax total imax.
+(* the pod's requests / limits read under the resource names of family f (0 = no name):
+   the containers count when they declare under that family; spec.overhead is in cpu/memory and
+   is added to requests always, to limits only where a limit is set *)
+Definition under (p : pod) (f : Z) (v : vec) : vec := if f =? p_fam p then v else vzero.
+Definition pod_requests (p : pod) (f : Z) : vec :=
+  let a := under p f (aggregate ct_req p) in
+  if f =? 1 then vadd a (ovec (p_overhead p)) else a.
+Definition pod_limits (p : pod) (f : Z) : vec :=
+  let a := under p f (aggregate ct_lim p) in
+  if f =? 1 then vzip (fun l o => if l =? 0 then l else l + o) a (ovec (p_overhead p)) else a.
+
+(* qos.ComputePodQOS = BestEffort: no container or init container has a positive cpu / memory
+   request or limit (only the native names count) *)
+Definition ctr_empty (c : ctr) : bool := forallb (fun x => x <=? 0) (ct_req c ++ ct_lim c).
+Definition computed_besteffort (p : pod) : bool :=
+  if p_fam p =? 1
+  then forallb ctr_empty (p_ctrs p) && forallb (fun ic => ctr_empty (snd ic)) (p_inits p)
+  else true.
+(* GetPodPriorityClassWithQoS (GetPodQoSClassWithDefault pod): a valid qosClass label decides
+   (BE -> batch, LSE / LSR / LS / SYSTEM -> prod); otherwise the kubernetes QoS class does
+   (status.qosClass when set, else computed: BestEffort -> BE -> batch; Guaranteed -> LSR and
+   Burstable -> LS -> prod); an unknown status.qosClass gives no class *)
+Definition qos_cls (p : pod) : cls :=
+  if (1 <=? p_qos p) && (p_qos p <=? 5) then (if p_qos p =? 4 then CBatch else CProd)
+  else if p_kqos p =? 0 then (if computed_besteffort p then CBatch else CProd)
+  else if p_kqos p =? 3 then CBatch
+  else if (p_kqos p =? 1) || (p_kqos p =? 2) then CProd
+  else CNone.
+(* GetPodPriorityClassWithDefault (apis/extension/priority_utils.go:37): pods without a
+   koordinator priority class are classed by their QoS *)
+Definition pod_cls (p : pod) : cls :=
+  match raw_cls p with
+  | CNone => qos_cls p
+  | c => c
+  end.
 Definition is_prod (p : pod) : bool :=
-  match cls_of_prio (p_prio p) with CProd => true | _ => false end.
+  match pod_cls p with CProd => true | _ => false end.
+(* TranslateResourceNameByPriorityClass: the family of names a class reads (0 = none) *)
+Definition fam_of_cls (c : cls) : Z :=
+  match c with CProd | CNone => 1 | CMid => 2 | CBatch => 3 | CFree => 0 end.
 
 (* DefaultMilliCPURequest / DefaultMemoryRequest (default_estimator.go:35-38) are generated from
    the source into Gen.Gen_loadaware *)
@@ -151,7 +243,9 @@ Fixpoint est_list (c : cls) (dflts reqs lims : vec) (fs : omap) : vec :=
 
 (* vectorizer.ToFactorVec(estimator.EstimatePod(pod)) *)
 Definition est_vec (cfg : config) (p : pod) : vec :=
-  est_list (cls_of_prio (p_prio p)) est_defaults (p_req p) (p_lim p) (factor_map cfg p).
+  let c := pod_cls p in
+  est_list c est_defaults (pod_requests p (fam_of_cls c)) (pod_limits p (fam_of_cls c))
+           (factor_map cfg p).
 
 (* what the cache keeps per pod: podAssignInfo (pod_assign_cache.go:124) *)
 Record pinfo := mkPI { pi_pod : pod; pi_ts : Z; pi_dl : Z; pi_est : option vec }.
@@ -327,7 +421,7 @@ Definition put_or_cleanup (c : cache) (node : Z) (n : ninfo) : cache :=
 
 (* assign (pod_assign_cache.go:291) + nodeInfo.AddOrUpdatePod (:418) *)
 Definition assign (cfg : config) (now : Z) (node : Z) (p : pod) (c : cache) : cache :=
-  if (node =? 0) || p_term p || p_resv p then c else
+  if (node =? 0) || terminated p || p_resv p then c else
   let pi := mk_pinfo cfg now p in
   let n := get_node c node in
   let old := alookup (p_uid p) (n_pods n) in
@@ -358,10 +452,24 @@ Definition unassign (node : Z) (uid : Z) (c : cache) : cache :=
 
 Definition vec_eqb (a b : vec) : bool :=
   (Nat.eqb (length a) (length b)) && forallb (fun xy => fst xy =? snd xy) (combine a b).
+Fixpoint list_eqb {A} (eqb : A -> A -> bool) (a b : list A) : bool :=
+  match a, b with
+  | [], [] => true
+  | x :: a', y :: b' => eqb x y && list_eqb eqb a' b'
+  | _, _ => false
+  end.
+Definition oz_eqb (a b : option Z) : bool :=
+  match a, b with Some x, Some y => x =? y | None, None => true | _, _ => false end.
+Definition ovec_eqb (a b : option vec) : bool :=
+  match a, b with Some x, Some y => vec_eqb x y | None, None => true | _, _ => false end.
+Definition ctr_eqb (a b : ctr) : bool :=
+  vec_eqb (ct_req a) (ct_req b) && vec_eqb (ct_lim a) (ct_lim b).
+Definition ictr_eqb (a b : bool * ctr) : bool := Bool.eqb (fst a) (fst b) && ctr_eqb (snd a) (snd b).
 (* reflect.DeepEqual on the Spec / on Status.Conditions of the pods the harness builds *)
 Definition spec_eqb (a b : pod) : bool :=
-  (p_node a =? p_node b) && (p_prio a =? p_prio b)
-  && vec_eqb (p_req a) (p_req b) && vec_eqb (p_lim a) (p_lim b).
+  (p_node a =? p_node b) && oz_eqb (p_prio a) (p_prio b) && (p_fam a =? p_fam b)
+  && list_eqb ctr_eqb (p_ctrs a) (p_ctrs b) && list_eqb ictr_eqb (p_inits a) (p_inits b)
+  && ovec_eqb (p_overhead a) (p_overhead b).
 Definition cond_eqb1 (s1 t1 s2 t2 : Z) : bool :=
   (s1 =? s2) && ((s1 =? 0) || (t1 =? t2)).
 Definition cond_eqb (a b : pod) : bool :=
@@ -380,7 +488,7 @@ Definition on_update (cfg : config) (now : Z) (old_node : Z) (p : pod) (c : cach
   match pod_info c1 (p_node p) (p_uid p) with
   | None => assign cfg now (p_node p) p c1
   | Some o =>
-    if p_term p then unassign (p_node p) (p_uid p) c1
+    if terminated p then unassign (p_node p) (p_uid p) c1
     else if negb (spec_eqb p (pi_pod o)) || negb (cond_eqb p (pi_pod o))
     then assign cfg now (p_node p) p c1
     else c1
@@ -504,7 +612,7 @@ Fixpoint usage_exceeds (thr est alloc : vec) : bool :=
    the estimate of the existing pods per (prod, aggregation type, duration); None = NotFound *)
 Definition filter_decide (cfg : config) (nd : nodeobj) (p : pod)
     (st : option (metric * (bool -> Z -> Z -> option vec))) : Z :=
-  if p_ds p then 0 else
+  if daemonset p then 0 else
   let '(thr, isAgg, aggT, aggD, prodPod) := select_thresholds (node_profile cfg nd) (is_prod p) in
   if vempty thr then 0 else
   match st with
@@ -533,6 +641,61 @@ Definition node_view (c : cache) (node : Z) : option (metric * (bool -> Z -> Z -
 Definition filter (cfg : config) (c : cache) (nd : nodeobj) (p : pod) : Z :=
   filter_decide cfg nd p (node_view c (nd_name nd)).
 
+(* ------------------------------------------------------------------ score *)
+(* loadAwareSchedulingScorer (load_aware.go:345) over the REGENERATED leastUsedScore *)
+Fixpoint scorer_loop (ws used alloc : vec) (acc : Z * Z * Z) : Z * Z * Z :=
+  match ws with
+  | [] => acc
+  | w :: ws' =>
+    let '(nodeScore, dominant, weightSum) := acc in
+    let s := loadaware_leastUsedScore (hd 0 used) (hd 0 alloc) in
+    scorer_loop ws' (tl used) (tl alloc)
+      (nodeScore + s * w, (if s <? dominant then s else dominant), weightSum + w)
+  end.
+Definition scorer (dom : Z) (ws used alloc : vec) : Z :=
+  let '(nodeScore, dominant, weightSum) :=
+    scorer_loop ws used alloc
+      (0, (if dom =? 0 then 0 else MaxNodeScore), (if dom =? 0 then 0 else dom)) in
+  if weightSum <=? 0 then 0 else Z.quot (nodeScore + dominant * dom) weightSum.
+
+(* Plugin.scoreWeights as New() sets it: nil when there is nothing to weigh *)
+Definition score_weights (cfg : config) : option vec :=
+  let ws := om_vec (sc_weights (c_score cfg)) in
+  if (sc_dom (c_score cfg) =? 0) && vempty ws then None else Some ws.
+
+(* which estimate Score asks the cache for: (prodPod, aggregation type, duration) *)
+Definition score_variant (cfg : config) (p : pod) : bool * Z * Z :=
+  let prodPod := sc_prod (c_score cfg) && is_prod p in
+  match c_agg cfg with
+  | Some _ =>
+    if negb prodPod && negb (sc_aggT (c_score cfg) =? 0)
+    then (prodPod, sc_aggT (c_score cfg), sc_aggD (c_score cfg)) else (prodPod, 0, 0)
+  | None => (prodPod, 0, 0)
+  end.
+
+(* Plugin.Score (load_aware.go:235) *)
+Definition score_decide (cfg : config) (nd : nodeobj) (p : pod)
+    (st : option (metric * (bool -> Z -> Z -> option vec))) : Z :=
+  match score_weights cfg with
+  | None => 0
+  | Some ws =>
+    let '(prodPod, aggT, aggD) := score_variant cfg p in
+    match st with
+    | None => 0
+    | Some (m, get) =>
+      match get prodPod aggT aggD with
+      | None => 0
+      | Some est =>
+        if (match c_exp_seconds cfg with Some s => metric_expired m s | None => false end) then 0
+        else if negb (is_some (m_info m)) then 0
+        else scorer (sc_dom (c_score cfg)) ws (vadd est (est_vec cfg p)) (eff_alloc nd)
+      end
+    end
+  end.
+
+Definition score (cfg : config) (c : cache) (nd : nodeobj) (p : pod) : Z :=
+  score_decide cfg nd p (node_view c (nd_name nd)).
+
 (* ------------------------------------------------------------------ operations *)
 Inductive op :=
 | OReserve (now node : Z) (p : pod)
@@ -542,7 +705,9 @@ Inductive op :=
 | ODelete (now : Z) (p : pod)
 | OMetric (now node : Z) (m : metric)
 | OMetricDel (now node : Z)
-| OFilter (now : Z) (nd : nodeobj) (p : pod).
+| OFilter (now : Z) (nd : nodeobj) (p : pod)
+| ONop (now : Z)                      (* an event carrying an object of another type: ignored *)
+| OScore (now : Z) (nd : nodeobj) (p : pod).
 
 Definition step (cfg : config) (c : cache) (o : op) : cache :=
   match o with
@@ -554,6 +719,8 @@ Definition step (cfg : config) (c : cache) (o : op) : cache :=
   | OMetric _ node m => set_metric cfg node m c
   | OMetricDel _ node => del_metric node c
   | OFilter _ _ _ => c
+  | ONop _ => c
+  | OScore _ _ _ => c
   end.
 
 Definition run (cfg : config) (ops : list op) : cache := fold_left (step cfg) ops [].
@@ -562,6 +729,7 @@ Definition run (cfg : config) (ops : list op) : cache := fold_left (step cfg) op
 Definition op_result (cfg : config) (c : cache) (o : op) : Z :=
   match o with
   | OFilter _ nd p => filter cfg c nd p
+  | OScore _ nd p => score cfg c nd p
   | _ => 0
   end.
 
